@@ -33,7 +33,7 @@ TOKEN_RE = re.compile(r'''
  |(?P<rawid>r\#[A-Za-z_][A-Za-z0-9_]*)
  |(?P<id>[A-Za-z_][A-Za-z0-9_]*)
  |(?P<life>'[a-z_]+\b(?!'))
- |(?P<op>\.\.=|\.\.|::|->|=>|==|!=|<=|>=|&&|\|\||\+=|-=|>>|<<|[-+*/%=<>!&|^.,;:(){}\[\]\#?@])
+ |(?P<op>\.\.=|\.\.|::|->|=>|==|!=|<=|>=|&&|\|\||\+=|-=|>>|<<|[-+*/%=<>!&|^.,;:(){}\[\]\#?@$])
 ''', re.X)
 
 def strip_comments(s):
@@ -222,6 +222,8 @@ class Parser:
                 g.append(n)
                 if self.eat(":"):
                     self.bounds[n] = self.type()["name"]
+                    while self.eat("+"):
+                        self.type()
                 self.eat(",")
             self.expect(">")
         return g
@@ -1917,6 +1919,216 @@ def extern_enums():
             out[n] = p.enum([])
     return out
 
+# ------------------------------------------------------------------------------------------------ macro bodies
+MACRO_KINDS = {  # macro name -> (kind of $from, kind of $into, function name)
+    "impl_from_newtype_to_newtype": ("nt", "nt", "from"),
+    "impl_from_newtype_to_primitive": ("nt", "prim", "from"),
+    "impl_from_primitive_to_newtype": ("prim", "nt", "from"),
+    "impl_try_from_newtype_to_newtype": ("nt", "nt", "try_from"),
+    "impl_try_from_primitive_to_newtype": ("prim", "nt", "try_from"),
+}
+
+def macro_rules(toks):
+    """name -> (pattern tokens, body tokens) for every single-rule `macro_rules! name { (pat) => { body } }`"""
+    out = {}
+    i = 0
+    def group(j, open_, close_):
+        assert toks[j][1] == open_, toks[j]
+        depth = 0; k = j
+        while True:
+            t = toks[k]
+            if t[0] != "str" and t[1] == open_: depth += 1
+            if t[0] != "str" and t[1] == close_:
+                depth -= 1
+                if depth == 0: return k
+            k += 1
+    while i < len(toks) - 3:
+        if toks[i][1] == "macro_rules" and toks[i + 1][1] == "!":
+            name = toks[i + 2][1]
+            j = i + 3
+            e = group(j, "{", "}")
+            inner = toks[j + 1:e]
+            pe = group_in(inner, 0, "(", ")")
+            pat = inner[1:pe]
+            k = pe + 1
+            assert inner[k][1] == "=>", inner[k]
+            be = group_in(inner, k + 1, "{", "}")
+            body = inner[k + 2:be]
+            out[name] = (pat, body)
+            i = e
+        i += 1
+    return out
+
+def group_in(toks, j, open_, close_):
+    depth = 0; k = j
+    assert toks[j][1] == open_, toks[j]
+    while True:
+        t = toks[k]
+        if t[0] != "str" and t[1] == open_: depth += 1
+        if t[0] != "str" and t[1] == close_:
+            depth -= 1
+            if depth == 0: return k
+        k += 1
+
+def subst(body, mapping):
+    """replace `$name` by the mapped tokens; drop `$crate ::`; `< $repr > ::` becomes `REPR__ ::`"""
+    out = []; i = 0
+    while i < len(body):
+        t = body[i]
+        if t[1] == "<" and i + 4 < len(body) and body[i + 1][1] == "$" and body[i + 3][1] == ">" and body[i + 4][1] == "::":
+            out.append(("id", mapping[body[i + 2][1]])); i += 4; continue
+        if t[1] == "$" and i + 1 < len(body):
+            n = body[i + 1][1]
+            if n == "crate":
+                i += 2
+                if i < len(body) and body[i][1] == "::": i += 1
+                continue
+            if n in mapping:
+                out.append(("id", mapping[n])); i += 2; continue
+            raise TErr("macro metavariable $%s outside the subset" % n)
+        out.append(t); i += 1
+    return out
+
+class MacroGen:
+    """Translates the bodies of the five conversion macros and `is_valid` / `from_str` / `get` / `new_unchecked` / MIN /
+    MAX of `newtype!` with the metavariables as PARAMETERS: `$from` / `$into` become a NewtypeDef or a PrimTy of the
+    hand-written model, a value of either is its mathematical value (Int), `x as _` is the two's-complement cast into the
+    type inferred from the context (`Self(..)` of a newtype: its repr; the returned primitive: that primitive)."""
+    def __init__(self, path):
+        self.toks = tokenize(strip_comments(open(path).read()))
+        self.macros = macro_rules(self.toks)
+
+    def find_fn(self, body, name):
+        """tokens of `fn name ... { .. }` inside a macro body"""
+        for i in range(len(body) - 1):
+            if body[i][1] == "fn" and body[i + 1][1] == name:
+                j = i
+                while body[j][1] != "{": j += 1
+                e = group_in(body, j, "{", "}")
+                return body[i:e + 1]
+        raise TErr("fn %s not found in macro body" % name)
+
+    def expr(self, e, cx, cast_target=None):
+        K = e["k"]
+        if K == "lit": return "(%s : Int)" % e["v"]
+        if K == "path":
+            segs = e["segs"]
+            if len(segs) == 1 and segs[0] in cx["vars"]: return cx["vars"][segs[0]]
+            if segs == ["MAX__"]: return "(max : Int)"
+            raise TErr("macro body: unknown path %s" % segs)
+        if K == "tfield" and e["idx"] == 0:
+            b = e["e"]
+            if b["k"] == "path" and b["segs"] == ["self"] and cx.get("self_nt"): return "self"
+            if b["k"] == "path" and len(b["segs"]) == 1 and cx["kinds"].get(b["segs"][0]) == "nt": return self.expr(b, cx)
+            raise TErr("macro body: `.0` on something that is not a restricted integer")
+        if K == "cast":
+            if e["to"] in ("u8", "i8", "u16", "i16", "u32", "i32", "u64", "i64", "u128", "i128", "usize", "isize"):
+                return "(PrimTy.%s.cast pw %s)" % (e["to"], self.expr(e["e"], cx))
+            if e["to"] != "_": raise TErr("macro body: cast to %s" % e["to"])
+            if cast_target is None: raise TErr("macro body: `as _` whose target cannot be inferred")
+            return "(%s.cast pw %s)" % (cast_target, self.expr(e["e"], cx))
+        if K == "unary" and e["op"] == "!": return "(!%s)" % self.expr(e["e"], cx)
+        if K == "binary":
+            a, b = self.expr(e["a"], cx), self.expr(e["b"], cx)
+            if e["op"] == "&&": return "(%s && %s)" % (a, b)
+            if e["op"] == ">=": return "(decide (%s ≥ %s))" % (a, b)
+            if e["op"] == "<=": return "(decide (%s ≤ %s))" % (a, b)
+            raise TErr("macro body: operator %s" % e["op"])
+        if K == "mcall" and e["name"] == "into" and not e["args"]:
+            return self.expr(e["recv"], cx)              # `From<$repr>` into the comparison type is lossless: the same mathematical value
+        if K == "call" and e["f"].get("k") == "path":
+            segs = e["f"]["segs"]
+            if segs in (["Self"], ["NAME__"]) and len(e["args"]) == 1:
+                if cx["into_kind"] != "nt": raise TErr("macro body: Self(..) of a primitive")
+                return self.expr(e["args"][0], cx, cast_target="Into_.repr")
+            if segs in (["Self", "is_valid"], ["NAME__", "is_valid"]) and len(e["args"]) == 1:
+                return "(newtype.is_valid Into_.max %s)" % self.expr(e["args"][0], cx)
+            raise TErr("macro body: call of %s" % "::".join(segs))
+        raise TErr("macro body: expression kind %s" % K)
+
+    def fn_body(self, f, cx, fallible):
+        """`if c { return Err(..); } ... Ok(e)` / a tail expression -> one Lean term of type Option Int"""
+        b = f["body"]
+        conds = []
+        for st in b["stmts"]:
+            if st["k"] == "let" and st["pat"]["k"] == "pident":
+                continue
+            e = st["e"] if st["k"] == "expr" else None
+            if e and e["k"] == "if" and e["else"] is None and len(e["then"]["stmts"]) == 1 and e["then"]["stmts"][0]["k"] == "expr" \
+                    and e["then"]["stmts"][0]["e"]["k"] == "return":
+                r = e["then"]["stmts"][0]["e"]["e"]
+                if not (r and r["k"] == "call" and r["f"].get("segs") == ["Err"]): raise TErr("macro body: early return of something else than Err")
+                conds.append(self.expr(e["c"], cx))
+                continue
+            raise TErr("macro body: statement outside the subset")
+        t = b["tail"]
+        if t is None: raise TErr("macro body: no result expression")
+        if fallible:
+            if not (t["k"] == "call" and t["f"].get("segs") == ["Ok"]): raise TErr("macro body: result is not Ok(..)")
+            val = self.expr(t["args"][0], cx)
+        else:
+            val = self.expr(t, cx, cast_target=("Into_" if cx["into_kind"] == "prim" else None))
+        out = "some %s" % val
+        for c in reversed(conds):
+            out = "if %s then none else %s" % (c, out)
+        return out
+
+    def module(self):
+        out = ["-- GENERATED by tools/rs2lean.py from /repo/src/newtype_macros.rs (working tree). Do not edit.",
+               "-- the bodies of the conversion macros and of `newtype!`, with the macro metavariables as parameters",
+               "import Midi.Model.Conv", "namespace Midi.Gen.Macros", "open Midi", ""]
+        nt_pat, nt_body = self.macros["newtype"]
+        m = {"name": "NAME__", "repr": "REPR__", "max": "MAX__", "outer": "OUTER__"}
+        # is_valid
+        ftoks = subst(self.find_fn(nt_body, "is_valid"), m)
+        f = Parser(ftoks).fn()
+        if len(f["params"]) != 1: raise TErr("is_valid: parameters")
+        pn = f["params"][0][0]
+        t = f["body"]["tail"]
+        if f["body"]["stmts"] or t is None: raise TErr("is_valid: body shape")
+        cx = {"vars": {pn: pn}, "kinds": {}, "into_kind": "nt"}
+        out += ["/-- `newtype!`: `fn is_valid<T: PartialOrd + From<$repr>>(number: T) -> bool` (comparison of mathematical values) -/",
+                "def newtype.is_valid (max : Nat) (%s : Int) : Bool := %s" % (pn, self.expr(t, cx)), ""]
+        # get / new_unchecked / MIN / MAX
+        g = Parser(subst(self.find_fn(nt_body, "get"), m)).fn()
+        cxg = {"vars": {}, "kinds": {}, "into_kind": "nt", "self_nt": True}
+        if g["body"]["stmts"] or g["body"]["tail"] is None: raise TErr("get: body shape")
+        out += ["/-- `newtype!`: `get` -/", "def newtype.get (self : Int) : Int := %s" % self.expr(g["body"]["tail"], cxg), ""]
+        # from_str
+        fs = Parser(subst(self.find_fn(nt_body, "from_str"), m)).fn()
+        st = fs["body"]["stmts"]
+        if not (len(st) == 2 and st[0]["k"] == "let" and st[0]["e"]["k"] == "try"): raise TErr("from_str: body shape")
+        init = st[0]["e"]["e"]
+        if init["k"] == "mcall" and init["name"] == "map_err": init = init["recv"]
+        if not (init["k"] == "call" and init["f"].get("segs") == ["REPR__", "from_str"] and len(init["args"]) == 1): raise TErr("from_str: parser call")
+        prim = st[0]["pat"]["segs"][0]
+        cxs = {"vars": {prim: "(%s : Int)" % prim}, "kinds": {}, "into_kind": "nt"}
+        fsb = dict(fs); fsb["body"] = {"k": "block", "stmts": st[1:], "tail": fs["body"]["tail"]}
+        body = self.fn_body(fsb, cxs, True)
+        body = body.replace("Into_.repr.cast pw", "Into_.repr.cast pw")  # `$name(primitive)`: no cast here
+        out += ["/-- `newtype!`: `FromStr` (`<$repr>::from_str` is the hand-written model of core's parser); a value of `$repr` is a Nat -/",
+                "def newtype.from_str (pw : Nat) (Into_ : NewtypeDef) (source : List Char) : Option Int :=",
+                "  match parsePrim (Into_.repr.maxVal pw).toNat source with",
+                "  | none => none",
+                "  | some %s => %s" % (prim, body), ""]
+        # conversion macros
+        for name, (fk, ik, fname) in MACRO_KINDS.items():
+            if name not in self.macros: raise TErr("macro %s not found" % name)
+            pat, body = self.macros[name]
+            toks = subst(body, {"from": "FROM__", "into": "INTO__"})
+            items = Parser(toks, keep_trait_impls={("From", "INTO__"), ("TryFrom", "INTO__")}).file()
+            fns = [f for it in items if it["k"] == "impl" for f in it["fns"] if f["name"] == fname]
+            if len(fns) != 1: raise TErr("macro %s: expected exactly one fn %s" % (name, fname))
+            f = fns[0]
+            if len(f["params"]) != 1: raise TErr("macro %s: parameters" % name)
+            pn = f["params"][0][0]
+            cx = {"vars": {pn: pn}, "kinds": {pn: fk}, "into_kind": ik}
+            term = self.fn_body(f, cx, fname == "try_from")
+            out += ["/-- `%s!($from, $into)`: `fn %s(%s: $from)` -/" % (name, fname, pn),
+                    "def %s (pw : Nat) (Into_ : %s) (%s : Int) : Option Int := %s" % (name, "NewtypeDef" if ik == "nt" else "PrimTy", pn, term), ""]
+        out.append("end Midi.Gen.Macros")
+        return "\n".join(out) + "\n"
+
 def write_if_changed(path, content):
     old = open(path).read() if os.path.exists(path) else None
     if old != content:
@@ -1949,6 +2161,17 @@ def main():
             write_if_changed(path, "-- GENERATED by tools/rs2lean.py: translation of src/%s FAILED\n-- reason: %s\n"
                              "example : (0 : Nat) = 1 := rfl   -- deliberately does not build\n" % (fname, reason))
             status[mod] = {"ok": False, "error": "%s: %s" % (type(ex).__name__, ex)}
+    path = os.path.join(OUT, "Macros.lean")
+    try:
+        mg = MacroGen(os.path.join(REPO, "src", "newtype_macros.rs"))
+        text = mg.module()
+        write_if_changed(path, text)
+        status["Macros"] = {"ok": True, "functions": text.count("\ndef "), "types": 0, "lines": text.count("\n")}
+    except (TErr, OSError, KeyError, IndexError, AssertionError) as ex:
+        reason = re.sub(r"[^A-Za-z0-9 _.,:;()/'=<>!&|\[\]{}+*-]", "?", str(ex))
+        write_if_changed(path, "-- GENERATED by tools/rs2lean.py: translation of src/newtype_macros.rs FAILED\n-- reason: %s\n"
+                         "example : (0 : Nat) = 1 := rfl   -- deliberately does not build\n" % reason)
+        status["Macros"] = {"ok": False, "error": "%s: %s" % (type(ex).__name__, ex)}
     print(json.dumps(status))
     return 0 if all(v["ok"] for v in status.values()) else 2
 
